@@ -9,6 +9,7 @@ mod c16;
 mod c02;
 mod c15;
 mod c14;
+mod c23;
 
 fn main() {
     std::panic::set_hook(Box::new(|_| {}));
@@ -23,6 +24,7 @@ fn main() {
         "c02" => c02::run_case,
         "c15" => c15::run_case,
         "c14" => c14::run_case,
+        "c23" => c23::run_case,
         _ => {
             eprintln!("unknown subcommand {cmd}");
             std::process::exit(2);
